@@ -87,7 +87,8 @@ LibDef(name) ==
                 <<"eq", V(101), V(1)>> >>,
              << <<"eq", <<"list", <<V(2), V(3)>>>>,
                         <<"list", << <<"cons", V(103), V(104)>>, <<"cons", V(103), V(105)>> >>>> >>,
-                <<"conj", << <<"neq", V(103), V(1)>>, <<"call", "rember", <<V(1), V(104), V(105)>>>> >> >> >> >> >>]
+                (* a braced arm body { g1, g2 } contributes its goals to the arm's own conjunction *)
+                <<"neq", V(103), V(1)>>, <<"call", "rember", <<V(1), V(104), V(105)>>>> >> >> >>]
     [] name = "permute" ->
          (* CORRECTED (DESIGN 8 item 11): the pinned code removes x from yl with `rember`, which is
             the identity when x is absent, so it also relates a list to its sub-multisets; the
